@@ -239,5 +239,13 @@ S16 = Scenario(
     note="a netlist / library / definition is cloned (also after its ports were reordered), then the copy's or the "
          "original's definitions are reshaped (C02 only: the copy's instances must mirror the copy's definitions)")
 
+S17 = Scenario(
+    "S17-reorder-then-clone", seeds.seed_repoint,
+    ["clone", "definition.ports=", "port.pins=", "port.create_pin", "port.add_pin", "instance.reference="],
+    limits={"positions": (None, 0), "names": (None,), "counts": (None, 1), "clone_kinds": "NL", "proxy_pairs": lambda w: [], "odd_bulk": False},
+    depth={"quick": 2, "thorough": 3},
+    note="a definition whose instance is connected on two ports is reshaped (ports reordered, a pin added in front) so that "
+         "the instance's pin table and the port order differ; then the netlist / library is cloned")
+
 STRUCTURAL += [S10, S11, S9, S12, S13, S14]
-INSTANCE_SCENARIOS += [S11, S16]
+INSTANCE_SCENARIOS += [S11, S16, S17]
